@@ -175,17 +175,20 @@ func (kv *vKV) BulkWrite(f func(bl kvi.KVBulkWrite) error) error {
 }
 
 type vKVIter struct {
-	kv *vKV
-	i  int
+	kv      *vKV
+	i       int
+	reverse bool // set by SeekReverse: Next then steps towards smaller keys, as every adapter does
 }
 
 func (it *vKVIter) Seek(k []byte) error {
+	it.reverse = false
 	it.i, _ = it.kv.pos(k)
 	return nil
 }
 
 // SeekReverse positions at the largest key <= k.
 func (it *vKVIter) SeekReverse(k []byte) error {
+	it.reverse = true
 	p, found := it.kv.pos(k)
 	if found {
 		it.i = p
@@ -201,7 +204,11 @@ func (it *vKVIter) Value() ([]byte, error) {
 	return vClone(it.kv.vals[it.i]), nil
 }
 func (it *vKVIter) Next() error {
-	it.i++
+	if it.reverse {
+		it.i--
+	} else {
+		it.i++
+	}
 	return nil
 }
 func (it *vKVIter) Get(key []byte) ([]byte, error) { return it.kv.Get(key) }
